@@ -1,4 +1,4 @@
-import NmlVerif.Model.Add
+import NmlVerif.Model.AddIR
 /-!
 # Model of `component_factory`, of `add()` with a type argument, of the generated constructors and of the switch
 (neuroml/nml/generatedssupersuper.py:103-160 `component_factory`, 523-560 `_check_arg_list`, 26-101 `add`;
@@ -222,14 +222,31 @@ structure AddOutcome where
   warn : Option Warn
   result : Except (Err ⊕ Add.Err) Obj
 
+/-- the form the two repaired spots of `__add` have in the tree (property C10's switches, read off the source by
+    `translators/py2lean_add.py` → `Gen/AddImpl.lean`): how "already there" is decided, how the duplicate warning
+    gets its text, and the book-keeping attributes `__same_contents` leaves out -/
+structure PlaceShape where
+  dup : DupTest
+  warn : WarnFmt
+  bk : List Nat
+
+/-- `__add` as it was before the repairs `fixes/C10-add-dup-*.patch` -/
+def PlaceShape.old : PlaceShape := ⟨.generatedEq, .strObj, []⟩
+
+/-- `parent.add(child, hint, force, validate)` for a component instance, placement in shape `sh` (C10's model
+    `addCoreX`; `PlaceShape.old` gives `Add.add`) -/
+def addInst (sh : PlaceShape) (T : Table) (valid strOk : Obj → Bool) (g : Gate) (parent child : Obj)
+    (hint : Option Nat) (force : Bool) : Add.Outcome :=
+  addCoreX sh.dup sh.warn sh.bk valid strOk (T.getMembers parent.cls) g parent child hint force
+
 /-- `add()` with a type argument: the factory under the gate, then placement and validation of the parent under the
     SAME gate. A factory error leaves the parent untouched. -/
-def addByType (T : Table) (C : CtorTable) (env : Env) (strOk : Obj → Bool) (enabled flag : Bool) (parent : Obj)
-    (t : TypeArg) (kw : Kwargs) (hint : Option Nat) (force : Bool) (oid : Nat) : AddOutcome :=
+def addByType (sh : PlaceShape) (T : Table) (C : CtorTable) (env : Env) (strOk : Obj → Bool) (enabled flag : Bool)
+    (parent : Obj) (t : TypeArg) (kw : Kwargs) (hint : Option Nat) (force : Bool) (oid : Nat) : AddOutcome :=
   match factory T C env enabled flag t kw oid with
   | .error e => ⟨parent, none, .error (.inl e)⟩
   | .ok child =>
-    let r := Add.add T env.valid strOk ⟨enabled, flag⟩ parent child hint force
+    let r := addInst sh T env.valid strOk ⟨enabled, flag⟩ parent child hint force
     ⟨r.parent, r.warn, match r.result with
                         | .ok o => .ok o
                         | .error e => .error (.inr e)⟩
@@ -263,16 +280,16 @@ inductive Res where
 
 /-- run a session from switch state `s`: final switch and the results of the calls, in order. A call that raises
     is a result like any other: the session goes on, under the same switch. -/
-def session (T : Table) (C : CtorTable) (env : Env) : Bool → List Cmd → Bool × List Res
+def session (sh : PlaceShape) (T : Table) (C : CtorTable) (env : Env) : Bool → List Cmd → Bool × List Res
   | s, [] => (s, [])
   | s, .make f t kw oid :: cs =>
-    let rest := session T C env s cs
+    let rest := session sh T C env s cs
     (rest.1, .made (factory T C env s f t kw oid) :: rest.2)
   | s, .addT sk f p t kw h fo oid :: cs =>
-    let rest := session T C env s cs
-    (rest.1, .added (addByType T C env sk s f p t kw h fo oid) :: rest.2)
-  | _, .enable :: cs => session T C env true cs
-  | _, .disable :: cs => session T C env false cs
+    let rest := session sh T C env s cs
+    (rest.1, .added (addByType sh T C env sk s f p t kw h fo oid) :: rest.2)
+  | _, .enable :: cs => session sh T C env true cs
+  | _, .disable :: cs => session sh T C env false cs
 
 def Cmd.isToggle : Cmd → Bool
   | .enable => true
@@ -308,9 +325,10 @@ def validate (env : Env) (comp : Obj) : Except Err Unit :=
 def getMembers (T : Table) (self : Obj) : List MemberSpec := T.getMembers self.cls
 
 /-- the placement part of `add()` (the statements between the factory call and the final gate; property C10):
-    `Add.addCore` with the gate off -/
-def place (T : Table) (strOk : Obj → Bool) (self obj : Obj) (hint : Option Nat) (force : Bool) : Add.Outcome :=
-  Add.add T (fun _ => true) strOk ⟨false, false⟩ self obj hint force
+    C10's `addCoreX` in the shape of the tree, with the gate off -/
+def place (sh : PlaceShape) (T : Table) (strOk : Obj → Bool) (self obj : Obj) (hint : Option Nat) (force : Bool) :
+    Add.Outcome :=
+  addInst sh T (fun _ => true) strOk ⟨false, false⟩ self obj hint force
 
 end Py
 
